@@ -1,12 +1,11 @@
-import Sm9.Proofs.JacobianInst
+import Sm9.Proofs.JacobianInst2
 /-!
 # C05 — Scalar multiplication is the Z_r-module action on G1 and G2
 `P * k` is `k.val • P` in Mathlib's group, for every valid P (identity included, any
 representation) and every scalar — generic over the field, and for the model's own G1.
 With r·P1 = O (kernel evaluation), P1 ≠ O and r prime (Pratt certificate) the generator
 has order exactly r, and the module laws follow from Mathlib's `AddCommGroup`.
-G2: generic theorem applies once `Field Fq2` lands; meanwhile order of P2 by kernel and
-the oracle comparison.
+The same for G2 over Fq2, including every point of the twist (not only the order-r subgroup).
 -/
 namespace Sm9.C05
 open Jac
@@ -54,6 +53,27 @@ theorem order_P1 : r • G1.toAff (G.one : G1) = 0 ∧ G1.toAff (G.one : G1) ≠
       _ = 0 := h.symm
   · have hz : (G.one : G1).z ≠ 0 := by decide +kernel
     rw [G1.toAff_some _ hz (G1.one_valid.resolve_left hz)]
+    exact WeierstrassCurve.Affine.Point.some_ne_zero _
+theorem g2_mul (P : G2) (hP : G2.Valid P) (k : Fr) : G2.toAff (P.mul k) = k.val • G2.toAff P :=
+  G2.mul_correct P hP k
+theorem g2_mul_add (P : G2) (hP : G2.Valid P) (a b : Fr) :
+    G2.toAff ((P.mul a).add (P.mul b)) = (a.val + b.val) • G2.toAff P := by
+  rw [G2.add_correct _ _ (G2.mul_valid P hP a) (G2.mul_valid P hP b), G2.mul_correct P hP a,
+    G2.mul_correct P hP b, add_smul]
+/-- r·P2 = O and P2 ≠ O: the generator of G2 has order exactly r -/
+theorem order_P2 : r • G2.toAff (G.one : G2) = 0 ∧ G2.toAff (G.one : G2) ≠ 0 := by
+  refine ⟨?_, ?_⟩
+  · have hz : (((G.one : G2).mul (-(1 : Fr))).add G.one).z = 0 := by decide +kernel
+    have h := G2.add_correct _ _ (G2.mul_valid _ G2.one_valid (-(1 : Fr))) G2.one_valid
+    rw [G2.toAff_zero _ hz, G2.mul_correct _ G2.one_valid] at h
+    have hv : (-(1 : Fr)).val = r - 1 := by decide +kernel
+    rw [hv] at h
+    have hr1 : r - 1 + 1 = r := by decide +kernel
+    calc r • G2.toAff (G.one : G2) = (r - 1 + 1) • G2.toAff (G.one : G2) := by rw [hr1]
+      _ = (r - 1) • G2.toAff (G.one : G2) + G2.toAff (G.one : G2) := by rw [add_smul, one_smul]
+      _ = 0 := h.symm
+  · have hz : (G.one : G2).z ≠ 0 := by decide +kernel
+    rw [G2.toAff_some _ hz (G2.one_valid.resolve_left hz)]
     exact WeierstrassCurve.Affine.Point.some_ne_zero _
 theorem order_P2_kernel : (((G.one : G2).mul (-(1 : Fr))).add G.one).z = 0 ∧ (G.one : G2).z ≠ 0 := by
   decide +kernel
